@@ -473,6 +473,10 @@ class Doist(tyming.Tymist):
         if deeds is None:
             deeds = self.deeds
 
+        marker = (None, None, None)
+        if marker in deeds:  # interrupted recur so undo rotation to restore enter order
+            deeds.rotate(-(deeds.index(marker) + 1))
+
         while(deeds):  # .close each remaining dog in deeds in reverse order
             dog, retime, doer = deeds.pop()  # pop it off in reverse (right side)
             if not dog:  # marker deed
@@ -1347,6 +1351,10 @@ class DoDoer(Doer):
         """
         if deeds is None:
             deeds = self.deeds
+
+        marker = (None, None, None)
+        if marker in deeds:  # interrupted recur so undo rotation to restore enter order
+            deeds.rotate(-(deeds.index(marker) + 1))
 
         while(deeds):  # .close each remaining dog in deeds in reverse order
             dog, retime, doer = deeds.pop()  # pop it off in reverse (right side)
